@@ -7,7 +7,7 @@ namespace Nrf.Net
 open Nrf Rf24 Nrf.Spec Nrf.Proofs
 
 section
-variable {s0 : NetState} (h0 : Quiet s0) (hg : GoodCfg s0.node.cfg)
+variable {s0 : NetState} (h0 : Quiet7 s0) (hg : GoodCfg s0.node.cfg)
 include h0 hg
 
 omit hg in
